@@ -690,7 +690,22 @@ def setup():
     if o != "not-reproduced":
         log(open(lf, errors="replace").read()[-3000:])
         return 1
-    return 0
+    # mode S scratch crate for row_group_pruning.rs (C05 composition): build its dependency caches too
+    t0 = time.time()
+    files5, allh5 = load_property("C05")
+    make_overlay(files5)
+    b = Build("S:rgp")
+    b.prepare()
+    hs5 = [x for x in allh5 if x.mode == "S:rgp"][:1]
+    cmd = ["cargo", "kani"] + b.lib_flag + ["-Z", "stubbing", "-Z", "unstable-options", "--only-codegen",
+           "--target-dir", b.kani_target, "--exact", "--harness", hs5[0].full]
+    rc = run_capped(cmd, b.cwd, TIER_CAPS["thorough"][1], 1800, os.path.join(workdir, "setup-rgp.log"))
+    log(f"[setup] mode-S (rgp) kani cache built in {time.time() - t0:.0f}s (exit {rc})")
+    t0 = time.time()
+    subprocess.run(["cargo", "kani", "playback", "-Z", "concrete-playback", "--lib", "--only-codegen"], cwd=b.cwd, env=ENV,
+                   stdout=open(os.path.join(workdir, "setup-rgp-playback.log"), "w"), stderr=subprocess.STDOUT)
+    log(f"[setup] mode-S (rgp) playback cache built in {time.time() - t0:.0f}s")
+    return 0 if rc == 0 else 1
 
 
 def main():
